@@ -773,16 +773,18 @@ Definition text_xy_entry (o : text) (r : trow) : pent :=
   mkpent (tr_name r) (tr_type r) (read_row text_members (text_member o) r)
          (if N.eqb (tx_px o) (tx_px def_text) then 100 else 0).
 
-(* all properties by position (what a full dump through the public interface shows) *)
-Definition obj_props (o : anyobj) : list pent :=
+(* the listed properties: enumeration by position *)
+Definition obj_listed (o : anyobj) : list pent :=
   match o with
   | OAxis x => mapi (axis_entry x) 0 axis_table
   | OLine x => map (row_entry line_members (line_member x) (line_member def_line)) line_table
-  | OText x => app (map (row_entry text_members (text_member x) (text_member def_text)) text_table)
-                   (map (text_xy_entry x) text_table_named)
+  | OText x => map (row_entry text_members (text_member x) (text_member def_text)) text_table
   | OGraph x => map (graph_entry x) graph_table
   | OWorld x => map (row_entry world_members (world_member x) (world_member def_world)) world_table
   end.
+(* a full dump through the public interface: the listed properties, for a text also x and y by name *)
+Definition obj_props (o : anyobj) : list pent :=
+  app (obj_listed o) (match o with OText x => map (text_xy_entry x) text_table_named | _ => [] end).
 
 (* ---- property_match.c ---- *)
 Fixpoint property_match (m : bytes) (mlen : Z) (l : list bytes) (pos : Z) : Z :=
@@ -806,7 +808,7 @@ Definition obj_get (o : anyobj) (name : bytes) : Z + pent :=
     match r with inl e => inl e | inr i => match nth_error es i with Some e => inr e | None => inl (- BadArgument) end end in
   match o with
   | OAxis x => pick (mapi (axis_entry x) 0 axis_table) (sel axis_table 3 true)
-  | OLine x => pick (obj_props o) (sel line_table (-1) false)
+  | OLine x => pick (obj_listed o) (sel line_table (-1) false)
   | OText x =>
     match name with
     | [c] =>
@@ -814,10 +816,10 @@ Definition obj_get (o : anyobj) (name : bytes) : Z + pent :=
       | Some r => inr (text_xy_entry x r)
       | None => inl (- BadArgument)
       end
-    | _ => pick (obj_props o) (sel text_table (-1) false)
+    | _ => pick (obj_listed o) (sel text_table (-1) false)
     end
-  | OGraph x => pick (obj_props o) (sel graph_table 2 false)
-  | OWorld x => pick (obj_props o) (sel world_table 3 false)
+  | OGraph x => pick (obj_listed o) (sel graph_table 2 false)
+  | OWorld x => pick (obj_listed o) (sel world_table 3 false)
   end.
 
 (* ================= operations and histories ================= *)
